@@ -203,6 +203,11 @@ def replay_lifecycle_case(case):
                     f.close()
                 elif op == "exit_with":
                     f.__exit__(None, None, None)
+                elif op == "ctor_keep_open":
+                    f = TdmsFile(source(), keep_open=True)
+                elif op == "defragment":
+                    dst = os.path.join(tmp, "defrag_out.tdms")
+                    TdmsWriter.defragment(source(), dst, index_file=(cfg["index"] == "index"))
                 elif op == "stream_start":
                     gen_it = iter(f["g"]["c"].data_chunks() if o["kind"] == "chan" else f.data_chunks())
                     for _ in range(o["taken"]):
